@@ -149,6 +149,10 @@ var elKinds = []elKind{
 		variants: vs("{% include 5 %}", "{%- include zn -%}", "{% include nil %}", "{% include\n zt %}")},
 	{name: "include-error-inside", phase: 'r', fs: true, noLine: true, errKinds: []string{"syntax", "undefinedFilter", "filterErr", "undefinedTag"},
 		variants: vs("{% include 'zqbad.html' %}", "{%- include 'zqfail.html' -%}", "{% include 'sub/zqdiv.html' %}", "{% include\n 'zqtag.html' %}")},
+	// a file that includes itself: the error of RenderFile at the nesting limit, located at the innermost include tag
+	// (a tag of the FILE, 100 levels in: the line is not fixed by the property), cause = the plain depth error
+	{name: "include-depth", phase: 'r', fs: true, noLine: true, errKinds: []string{"includeDepth"}, cause: "other:includeDepth", msgHas: includeDepthMsg,
+		variants: vs("{% include 'zqself.html' %}", "{%- include \"zqself.html\" -%}", "{% include\n 'sub/zqloop.html' %}")},
 	// unbalanced blocks
 	{name: "missing-end", phase: 'p', errKinds: []string{"unterminated", "notInside"}, cause: "none",
 		variants: vs("{% if zt %}", "{% unless zf %}", "{% for zi in zn %}", "{% case 1 %}", "{% capture zq %}", "{% tablerow zi in zn %}", "{%- if zt -%}", "{% for zi\n in zn %}")},
@@ -174,13 +178,18 @@ var elKindByName = func() map[string]*elKind {
 	return m
 }()
 
-// the include layout of the include-error-inside kind
+var cycleReported bool // the include-cycle-process-death violation is reported once per process
+
+// the include layout of the include-error-inside and include-depth kinds
 var elFS = [][2]string{
 	{"zqbad.html", "a\n{{ 1 | }}\n"},
 	{"zqfail.html", "line1\nline2\n{{ 1 | zqfilter }}"},
 	{"sub/zqdiv.html", "\n\n\n{{ 1 | divided_by: 0 }}"},
 	{"zqtag.html", "\n{% zqtag %}"},
 	{"zqok.html", "fine {{ zs }}"},
+	{"zqself.html", "x\n{% include 'zqself.html' %}"},
+	{"sub/zqloop.html", "a{% include 'sub/zqback.html' %}"},
+	{"sub/zqback.html", "b\n{% include 'sub/zqloop.html' %}"},
 }
 
 // ---- block grammar of the standard tags (for the unbalanced-block expectations) -----------------
@@ -684,6 +693,16 @@ func errlocStream(r *Run) {
 				// applicability
 				if k.phase == 'r' && !ctx.executed {
 					continue
+				}
+				if k.name == "include-depth" { // rendered in this process: only when a cyclic include ends at all
+					if alive, _, details := includeCycleSurvives(); !alive {
+						if !cycleReported {
+							cycleReported = true
+							cl := renderCaseLine(engineCfg{FS: [][2]string{{"a.html", "x{% include \"a.html\" %}"}}}, mainTemplateName, 1, "{% include \"a.html\" %}", map[string]*V{})
+							r.Violate("C07", "include-cycle-process-death", cl, details)
+						}
+						continue
+					}
 				}
 				if k.outside && ctx.inLoop {
 					continue
